@@ -916,8 +916,61 @@ def judge_linelevel(case):
   return out, tuple(sorted(case["lines"]))
 
 
+# ---------------------------------------------------------------------------
+# a Line object moved from one Gfa to another (disconnected there, added
+# here) is converted as a line of the Gfa it is in now
+
+def cases_moved():
+  segs = [T(["S", n, "ACGT"]) for n in "ABC"]
+  for pname, steps, ov in (("p", "A+,B-,C+", "1M,1M"), ("p", "C-,B+", "*"),
+                           ("p", "A+,B-", "1M")):
+    for ida, idb in (("la", "lb"), ("x", "x")):
+      def links(pre):
+        return [T(["L", "A", "+", "B", "-", "1M", "ID:Z:" + pre + "1"]),
+                T(["L", "B", "-", "C", "+", "1M", "ID:Z:" + pre + "2"])]
+      yield {"dir": "1to2", "family": "moved",
+             "cell": "{} {} ids {}/{}".format(steps, ov, ida, idb),
+             "cigar": "-", "lines": segs + links(idb),
+             "meta": {"other": segs + links(ida),
+                      "path": T(["P", pname, steps, ov])}}
+
+
+def judge_moved(case):
+  out = []
+
+  def chk(clause, field, exp, obs):
+    if exp != obs:
+      out.append((clause, field, exp, obs))
+  a = gfapy.Gfa(case["meta"]["other"] + [case["meta"]["path"]], version="gfa1")
+  b = gfapy.Gfa(case["lines"], version="gfa1")
+  p = a.line("p")
+  p.disconnect()
+  r = _try(lambda: b.add_line(p))
+  if raised(r):
+    chk("conversion-raises", "adding the moved path", None, r)
+    return out, None
+  fresh = gfapy.Gfa(case["lines"] + [case["meta"]["path"]], version="gfa1")
+  before_a = sorted(str(x) for x in a.lines)
+  for how in ("_s", ""):
+    got = _try(lambda: getattr(b, "to_gfa2" + how)())
+    want = _try(lambda: getattr(fresh, "to_gfa2" + how)())
+    if raised(got) or raised(want):
+      chk("conversion-raises", "to_gfa2{}() with a moved path".format(how),
+          want if raised(want) else None, got if raised(got) else None)
+      continue
+    gt = sorted((got if how == "_s" else str(got)).split("\n"))
+    wt = sorted((want if how == "_s" else str(want)).split("\n"))
+    chk("line-conversion", "to_gfa2{}(): the Gfa with the moved path against "
+        "the same text parsed afresh".format(how), wt, gt)
+  chk("line-conversion", "the Gfa the path came from", before_a,
+      sorted(str(x) for x in a.lines))
+  return out, tuple(sorted(case["lines"]))
+
+
 def judge(case):
   fn = judge_1to2 if case["dir"] == "1to2" else judge_2to1
+  if case["family"] == "moved":
+    fn = judge_moved
   if case["family"] == "H":
     fn = judge_headers
   elif case["family"] == "Pline":
@@ -1052,7 +1105,7 @@ def run(ctx):
       list(cases_1to2_paths(ctx.quick)) + \
       list(cases_2to1_edges(ctx.quick)) + list(cases_2to1_other()) + \
       list(cases_2to1_paths()) + list(cases_headers()) + \
-      list(cases_linelevel(ctx.quick))
+      list(cases_linelevel(ctx.quick)) + list(cases_moved())
   fam = {}
   for c in cases:
     k = c["dir"] + ":" + c["family"]
